@@ -248,7 +248,7 @@ class Gen:
         txt = (f'<wsdl:definitions xmlns:wsdl="http://schemas.xmlsoap.org/wsdl/" xmlns:soap="http://schemas.xmlsoap.org/wsdl/soap/" xmlns:xs="{XS}" '
                f'xmlns:tns="{uris[w0]}" {decl} targetNamespace="{uris[w0]}">\n<wsdl:types>\n{schema_text(w0)}</wsdl:types>\n{msgs}'
                f'<wsdl:portType name="Port">\n{pt}</wsdl:portType>\n<wsdl:binding name="Bind" type="tns:Port"><soap:binding style="document" transport="http://schemas.xmlsoap.org/soap/http"/>\n{bd}</wsdl:binding>\n'
-               f'<wsdl:service name="{svc}Service"><wsdl:port name="p" binding="tns:Bind"><soap:address location="https://svc.example.org/{w0}/v{rng.randint(1, 9)}"/></wsdl:port></wsdl:service>\n</wsdl:definitions>\n')
+               f'<wsdl:service name="{svc}Service"><wsdl:port name="p" binding="tns:Bind"><soap:address location="https://svc.example.org/{w0}/v{rng.randint(1, 9)}{rng.choice(["", "", "?ws=1&amp;v=2", "/index.php?op=x"])}"/></wsdl:port></wsdl:service>\n</wsdl:definitions>\n')
         p = os.path.join(outdir, 'main.wsdl')
         open(p, 'w', encoding='utf-8').write(txt)
         return p
